@@ -68,6 +68,7 @@ class ProxFactory(object):
         P = AbsOp(I, 'prox_%s[%d]' % (af.name, len(lst)), af.dom, af.dom, False)
         P.prox_of = af
         P.sigma = sigma
+        P.op.opsym.prox = (af, sigma)
         lst.append((ls, P))
         return P.op
 
@@ -138,3 +139,63 @@ def install(st, inner_mode='gram'):
     st.cuts.update(functional_cuts())
     st.cut_props.update({FN + 'Functional.gradient', FN + 'Functional.proximal'})
     st.inner_mode = inner_mode
+
+
+# ---- subdifferential calculus: "g in subdiff h (P)" reduced to the prox axiom of the abstract leaves
+
+def find_prox_atoms(v, af, acc=None):
+    acc = [] if acc is None else acc
+    if isinstance(v, VApp):
+        pr = getattr(v.op, 'prox', None)
+        if pr is not None and pr[0] is af and v not in acc:
+            acc.append(v)
+        for a in v.args:
+            if isinstance(a, V):
+                find_prox_atoms(a, af, acc)
+    elif isinstance(v, VLin):
+        for _, t in v.terms:
+            find_prox_atoms(t, af, acc)
+    elif isinstance(v, VPw):
+        for a in v.args:
+            if isinstance(a, V):
+                find_prox_atoms(a, af, acc)
+    return acc
+
+
+def require_subgrad(I, fr, h, P, g, depth=0):
+    """Reduce  g in subdiff h(P)  to a list of alternatives, each a list of vector equalities (lhs, rhs)
+    that suffice by the characterisation  q = prox(f, tau, w)  <=>  (w - q)/tau in subdiff f(q)  of the
+    abstract leaf functionals.  Structural over the derived functional classes (subdifferential calculus:
+    positive scaling, argument scaling, translation, adding a quadratic and a linear term, conjugation)."""
+    if depth > 10:
+        raise Unsupported('subdifferential reduction too deep')
+    af = getattr(h, 'absfunc', None)
+    if af is not None:
+        alts = []
+        for q in find_prox_atoms(P, af) + [a for a in find_prox_atoms(g, af) if a not in find_prox_atoms(P, af)]:
+            tau = q.op.prox[1]
+            w = q.args[0]
+            alts.append([(P, q), (g, VLin([(1 / core._sc(tau), w), (-1 / core._sc(tau), q)]))])
+        return alts
+    name = h.cls.name
+    G = lambda n: I._getattr(h, n, fr)
+    if name == 'FunctionalLeftScalarMult':
+        s = G('scalar')
+        return require_subgrad(I, fr, G('functional'), P, VLin([(1 / core._sc(s), g)]), depth + 1)
+    if name == 'FunctionalRightScalarMult':
+        s = G('scalar')
+        return require_subgrad(I, fr, G('functional'), VLin([(s, P)]), VLin([(1 / core._sc(s), g)]), depth + 1)
+    if name == 'FunctionalTranslation':
+        t = value_of(G('translation'))
+        return require_subgrad(I, fr, G('functional'), VLin([(1, P), (-1, t)]), g, depth + 1)
+    if name == 'FunctionalQuadraticPerturb':
+        a, u = G('quadratic_coeff'), value_of(G('linear_term'))
+        return require_subgrad(I, fr, G('functional'), P, VLin([(1, g), (-2 * a, P), (-1, u)]), depth + 1)
+    if name == 'FunctionalScalarSum':
+        return require_subgrad(I, fr, G('left'), P, g, depth + 1)
+    if name == 'FunctionalDefaultConvexConjugate':
+        return require_subgrad(I, fr, G('convex_conj'), g, P, depth + 1)
+    if name == 'BregmanDistance':
+        sg = value_of(G('subgrad'))
+        return require_subgrad(I, fr, G('functional'), P, VLin([(1, g), (1, sg)]), depth + 1)
+    raise Unsupported('no subdifferential rule for %s' % name)
